@@ -759,6 +759,27 @@ func (fr *Frame) execInstr(instr ssa.Instruction, st *State) *State {
 	case *ssa.Slice:
 		fr.regs[x] = fr.slice(st, x)
 	case *ssa.MakeSlice:
+		if fr.isTop && ex.fc != nil && len(ex.fc.AtAlloc) > 0 && ex.inHandler == 0 {
+			// allocation-size assertions: `atalloc <expr>` with `alloclen` bound to the requested length
+			for _, cl := range ex.fc.AtAlloc {
+				env := ex.specEnv(fr, st, ex.entry)
+				env.vars["alloclen"] = SVal{V: fr.val(x.Len), T: x.Len.Type()}
+				nUnsup := len(ex.cx.unsupported)
+				g := env.evalBool(cl.Expr)
+				if len(ex.cx.unsupported) != nUnsup {
+					ex.cx.unsupported = ex.cx.unsupported[:nUnsup]
+					g = tFalse
+				}
+				label := cl.Label
+				if label == "" {
+					label = fmt.Sprintf("L%d", cl.Line)
+				}
+				if g.S == "true" {
+					g = Term{"(= 0 0)", SBool}
+				}
+				ex.oblige("atalloc", label, st, g, x.Pos(), cl.Props)
+			}
+		}
 		fr.regs[x] = fr.makeSlice(st, x)
 	case *ssa.MakeMap:
 		ref := ex.newObj(st)
